@@ -581,9 +581,9 @@ def run_case(deltas, op_specs, caps, cooldowns, last, turn=5, turn_type="int", s
             ncalls += 2
         except Exception:
             dres = bres = None
-        if dres is not None and dres[:4] == base[:4] and bres[:4] != base[:4]:
+        hard = [f for f in found if f[0] != "ref:metrics"]
+        if dres is not None and dres[:4] == base[:4] and (bres[:4] != base[:4] or not hard):
             group = "cfg-only" if ctx_shape.startswith("cfg-only") else ctx_shape.split(":")[-1]
-            hard = [f for f in found if f[0] != "ref:metrics"]
             if hard:   # the caps echo in metrics alone is not part of the statement: counted, not reported
                 add("ctx-shape:%s" % group,
                     "context shape %s: configured caps nov=%r l2=%r churn=%r cooldowns=%r ignored, built-in defaults used; "
